@@ -41,6 +41,8 @@ type Opts struct {
 	Ensure       bool  // EnsurePathExistsOnAdd
 	Esc          bool  // EscapeHTML (only matters for copy sizes)
 	Limit        int64 // AccumulatedCopySizeLimit
+	// CopySizes: measured size bounds of the successive copies (see State.Sizes).
+	CopySizes [][2]int64
 }
 
 // Result of evaluating one operation.
@@ -418,6 +420,11 @@ type State struct {
 	Root *V
 	// Lo, Hi: bounds of the accumulated copy size (a copied null counts 0..4).
 	Lo, Hi int64
+	// Sizes, when set, gives the size bounds of the 1st, 2nd, ... copy as
+	// measured elsewhere (inputs in a spelling other than the encoder's own);
+	// copies beyond the list fall back to the canonical size. Copies counts them.
+	Sizes  [][2]int64
+	Copies int
 }
 
 // Step evaluates one operation on st (mutating st.Root in place; on failure
@@ -503,12 +510,17 @@ func Step(st *State, op Op, o Opts) Result {
 		// the size is accounted before the value is inserted
 		res := Result{Copied: v.Clone()}
 		sz := int64(len(v.Text(o.Esc)))
-		if v.K == KNull {
+		switch {
+		case st.Copies < len(st.Sizes):
+			st.Lo += st.Sizes[st.Copies][0]
+			st.Hi += st.Sizes[st.Copies][1]
+		case v.K == KNull:
 			st.Hi += 4
-		} else {
+		default:
 			st.Lo += sz
 			st.Hi += sz
 		}
+		st.Copies++
 		over := false
 		if o.Limit > 0 {
 			if st.Lo > o.Limit {
@@ -566,7 +578,7 @@ func (o Outcome) OutOfDomain() bool { return o.FailAt >= 0 && o.Res.Cause == COu
 
 // Apply evaluates ops against a clone of doc.
 func Apply(doc *V, ops []Op, o Opts) Outcome {
-	st := &State{Root: doc.Clone()}
+	st := &State{Root: doc.Clone(), Sizes: o.CopySizes}
 	out := Outcome{FailAt: -1}
 	for i, op := range ops {
 		r := Step(st, op, o)
